@@ -96,6 +96,9 @@ type ticket struct{ notified bool }
 func NewCond(l Locker) *Cond { return &Cond{L: l} }
 
 func (c *Cond) Wait() {
+	// the enqueue below is an operation on the condition variable (dependent with Signal/Broadcast):
+	// it needs its own scheduling point, otherwise check-then-Wait windows cannot be entered.
+	vsched.Point("Cond.Wait (enqueue)")
 	t := &ticket{}
 	c.tickets = append(c.tickets, t)
 	c.L.Unlock()
@@ -124,6 +127,7 @@ type WaitGroup struct {
 }
 
 func (w *WaitGroup) Add(d int) {
+	vsched.Point("WaitGroup.Add")
 	w.n += d
 	if w.n < 0 {
 		if !vsched.Active() {
@@ -173,6 +177,7 @@ type Pool struct {
 }
 
 func (p *Pool) Get() any {
+	vsched.Point("Pool.Get")
 	if n := len(p.items); n > 0 {
 		x := p.items[n-1]
 		p.items = p.items[:n-1]
@@ -185,6 +190,7 @@ func (p *Pool) Get() any {
 }
 
 func (p *Pool) Put(x any) {
+	vsched.Point("Pool.Put")
 	if x == nil {
 		return
 	}
